@@ -35,6 +35,8 @@ from core.types import members
 from .common import stmt_of, types_of, where
 
 LAYER_RULE = "pytestarch.query_language.layered_architecture_rule"
+# where rules are built and judged; the import scanner, the graph and the plotting code never see a LayeredArchitecture
+SCOPE = ("pytestarch.query_language", "pytestarch.rule_assessment", "pytestarch.eval_structure.evaluable_architecture", "pytestarch.eval_structure.module_name_converter", "pytestarch.diagram_extension", "pytestarch.utils")
 
 LIST_MUTATORS = {"extend", "append", "insert", "remove", "pop", "clear", "sort", "reverse", "appendleft", "extendleft", "popleft"}
 DICT_MUTATORS = {"update", "setdefault", "pop", "popitem", "clear"}
@@ -115,9 +117,16 @@ def build_flow(repo: Repo) -> tuple[_AliasFlow, set[str]]:
             return out or None
         return None
 
+    def in_scope(f: FuncInfo) -> bool:
+        return f.module.name.startswith(SCOPE)
+
+    scope_fq = {f.fq for f in repo.all_functions() if in_scope(f)}
+
     def transfer(fi, call, callee_names, arg_tags, recv_tags, kwargs=None):
-        if callee_names:
+        if callee_names and any(c in scope_fq for c in callee_names):
             return None  # a function of the repo: parameters / return values are followed
+        if callee_names:
+            return set()  # graph / scanning code outside the rule machinery: it does not hand the architecture's lists back
         try:
             if T.ctor_class(fi, call) is not None:
                 return None  # a (data)class of the repo: the arguments become fields
@@ -156,6 +165,7 @@ def build_flow(repo: Repo) -> tuple[_AliasFlow, set[str]]:
         iter_map={"D": "L", "DC": "L", "L": "E"},
         non_absorbed=frozenset({"L", "D", "DC", "E"}),
         objects_carry=False,
+        scope=in_scope,
         opaque={"len", "isinstance", "hasattr", "bool", "print", "id", "type", "callable", "issubclass", "any", "all", "sum", "str", "repr", "hash"},
     )
     return _AliasFlow(repo, T, spec, holder), fam
@@ -176,7 +186,7 @@ def mutation_sites(repo: Repo) -> tuple[list[tuple[FuncInfo, ast.AST, str, str]]
     out: list[tuple[FuncInfo, ast.AST, str, str]] = []
     carriers = 0
     for fi in repo.all_functions():
-        if isinstance(fi.node, ast.Lambda) or in_family(fi):
+        if isinstance(fi.node, ast.Lambda) or in_family(fi) or not fi.module.name.startswith(SCOPE):
             continue
         for n in own_nodes(fi.node):
             if isinstance(n, ast.expr) and flow.tags(n) & {"L", "D"}:
